@@ -482,10 +482,10 @@ def extra_c05_scale(prop, tier, seed):
     """Bounded stand-in (labelled, never counted): the public entry points (parse, checked parse, format, JSON
     and CBOR validation) return normally and within 120 s (debug build, overflow checks on) on every text of
     <= 3 tokens out of 40 (quick: every 5th three-token text) and on inputs at the limits C05 names: nesting
-    depth 64 (17 shapes), sizes up to the 64 KiB class (23 shapes), every control operator x 6 targets x 15 arguments x 30
+    depth 64 (19 shapes), sizes up to the 64 KiB class (23 shapes), every control operator x 6 targets x 24 arguments x 33
     documents and every prelude name x 30 documents (sizes: many rules / choices / members, long
     arrays and maps against greedy and wildcard groups, long literals, comments, regexp).  Instances failing on
-    the unchanged tree are recorded in known_instances_C05_scale.json (known findings F24, F19)."""
+    the unchanged tree are recorded in known_instances_C05_scale.json (known finding F19)."""
     n, failing, times = scale_search(tier)
     known = json.load(open(os.path.join(engine.VERIF, 'known_instances_C05_scale.json')))
     new = sorted(k for k in failing if k not in known)
@@ -494,8 +494,7 @@ def extra_c05_scale(prop, tier, seed):
                                           'bound': '%d cases (%s tier), 120 s per case (slowest case on the unchanged tree: ~5 s), 4 GiB address space' % (n, tier), 'failing_instances': len(failing),
                                           'recorded_as_known': len(failing) - len(new), 'new': len(new),
                                           'slowest_ms': [{'case': k, 'ms': v} for k, v in slow]}]}
-    for fid, label in (('F24', 'entry-points:return-normally:recorded-generic-forwarding-instances'),
-                       ('F19', 'entry-points:return-normally:recorded-uriparse-panic-instances')):
+    for fid, label in (('F19', 'entry-points:return-normally:recorded-uriparse-panic-instances'),):
         ks = sorted(k for k in failing if known.get(k) == fid)
         if ks:
             w = {'case': ks[0]}
@@ -992,7 +991,7 @@ PROPS = {
         'extra': [extra_c05_crash, extra_c05_scale],
         'witness': witness_c05,
         'technique': 'Verus: allocation-size obligations injected at every allocation site found by token scan, decreases clauses, overflow / index / unwrap / library-precondition obligations on every function under contract',
-        'level_text': 'Partial: for the functions under contract - the eight CBOR decoder functions, the three parse-error range functions and the greedy occurrence loop of the array matcher in both validators (unit U7: terminates also for zero-width iterations such as [* ()], cursor stays inside the array, no counter overflow - with one iteration abstracted by a stub whose assumed contract is that the cursor never moves backwards or past the end) - Verus proves (a) every allocation whose size is a run-time value requests at most a constant (the "length in a CBOR head is never trusted for allocation" clause; sites re-discovered on every run), (b) termination of every loop and of the mutual recursion, (c) absence of arithmetic overflow, out-of-bounds indexing, failing unwrap and violated library preconditions (e.g. ciborium push() with a header already buffered, read_exact with a buffered header - both panic). Found and fixed: allocation of 2 TiB from 9b 00 00 00 10 00 00 00 00 (F3). NOT decided deductively: polynomial time, stack depth (recursion on nesting), the pest parser, the validators, Display. For the entry points as a whole only a bounded crash search runs (labelled bounded, not counted): 616 two-rule schemas x small documents through parse / checked parse / format / JSON and CBOR validation in subprocesses. It found F12 (.plus overflow, fixed), F13 (tag-1 epoch unwrap, fixed) and two defects recorded as known findings instance by instance: F9 (cyclic alias reached through a control operator, unwrap or generic overflows the stack: 1425 instances) and F19 (uriparse panics on some strings: 14 instances). A second bounded search (labelled bounded, not counted) runs the same entry points with a 120 s limit per case on every text of <= 3 tokens out of 40 and on inputs at the limits the property names - nesting depth 64 in 17 shapes, sizes up to the 64 KiB class in 23 shapes; it found F25 (formatter exponential in nesting depth, fixed) and F24 (a generic parameter forwarded under its own name overflows the stack in both validators; known finding, 2 recorded instances).',
+        'level_text': 'Partial: for the functions under contract - the eight CBOR decoder functions, the three parse-error range functions and the greedy occurrence loop of the array matcher in both validators (unit U7: terminates also for zero-width iterations such as [* ()], cursor stays inside the array, no counter overflow - with one iteration abstracted by a stub whose assumed contract is that the cursor never moves backwards or past the end) - Verus proves (a) every allocation whose size is a run-time value requests at most a constant (the "length in a CBOR head is never trusted for allocation" clause; sites re-discovered on every run), (b) termination of every loop and of the mutual recursion, (c) absence of arithmetic overflow, out-of-bounds indexing, failing unwrap and violated library preconditions (e.g. ciborium push() with a header already buffered, read_exact with a buffered header - both panic). Found and fixed: allocation of 2 TiB from 9b 00 00 00 10 00 00 00 00 (F3). NOT decided deductively: polynomial time, stack depth (recursion on nesting), the pest parser, the validators, Display. For the entry points as a whole only a bounded crash search runs (labelled bounded, not counted): 616 two-rule schemas x small documents through parse / checked parse / format / JSON and CBOR validation in subprocesses. It found F12 (.plus overflow, fixed), F13 (tag-1 epoch unwrap, fixed) and two defects recorded as known findings instance by instance: F9 (cyclic alias reached through a control operator, unwrap or generic overflows the stack: 1425 instances) and F19 (uriparse panics on some strings: 14 instances). A second bounded search (labelled bounded, not counted) runs the same entry points with a 120 s limit per case on every text of <= 3 tokens out of 40 and on inputs at the limits the property names - nesting depth 64 in 19 shapes, sizes up to the 64 KiB class in 23 shapes; it found F25 (formatter exponential in nesting depth, fixed) F37 (sloppy base64 on non-ASCII text, fixed) and F24 (a generic parameter forwarded under its own name overflowed the stack in both validators; first recorded as a known finding, then fixed).',
         'level_note': 'Trusted: as for C11 and C15. Only functions under contract are covered; C05 as stated quantifies over every entry point, most of which are outside the verifiers reach (see DESIGN.md 5).',
         'design_ref': 'DESIGN.md 4 U1/U3',
         'scope': 'panic/abort/termination obligations of the functions under contract in U1 and U3',
